@@ -114,7 +114,7 @@ PROPS = {
     },
     "C03": {
         "n": {"quick": 250, "thorough": 6000},
-        "cone": ["Bytes", "BytesLemmas", "Regex", "Generated", "Netconf", "NetconfLemmas", "NcSession", "NcSessionLemmas", "NcSegLemmas", "NcExtraLemmas", "DecideLang", "GeneratedSkel", "SerializeSrc", "Channel", "PlatformTypes"],
+        "cone": ["Bytes", "BytesLemmas", "Regex", "Generated", "Netconf", "NetconfLemmas", "NcSession", "NcSessionLemmas", "NcSegLemmas", "NcExtraLemmas", "DecideLang", "GeneratedSkel", "SerializeSrc", "NcBuildSrc", "Channel", "PlatformTypes"],
         "rx": True,
         "rule": "netconf.Driver over the simulated transport against a NETCONF server model whose request parser is a strict RFC 6242 / "
                 "end-of-message decoder: sessions of 1-12 requests over all operations (get, get-config, edit-config, copy/delete-config, "
